@@ -172,31 +172,9 @@ class RegExp:
         Returns:
             True if there's a match, False otherwise
         """
-        vm = self._create_vm()
-
-        if self._sticky:
-            result = vm.match(string, self.lastIndex)
-            if result:
-                if self._global:
-                    self.lastIndex = (
-                        result.index + len(result[0]) if result[0] else result.index
-                    )
-                return True
-            if self._global:
-                self.lastIndex = 0
-            return False
-
-        result = vm.search(string, self.lastIndex if self._global else 0)
-        if result:
-            if self._global:
-                self.lastIndex = (
-                    result.index + len(result[0]) if result[0] else result.index + 1
-                )
-            return True
-
-        if self._global:
-            self.lastIndex = 0
-        return False
+        # RegExp.prototype.test is "exec(string) is not null": one protocol
+        # for lastIndex, whatever the flags
+        return self.exec(string) is not None
 
     def exec(self, string: str) -> Optional[MatchResult]:
         """
